@@ -3,7 +3,7 @@ import re
 
 from .common import run_session_body
 from ..core import CheckError, op_const, op_place
-from .c01 import ok_edge_of_try
+from .c01 import ok_edge_of_try, ok_edge_of_test
 from ..prov import reads_locals, sources
 from . import serde_table
 
@@ -53,7 +53,7 @@ def run(ctx):
                    '%s receives %s' % (c.name, 'the appended event `%s` (or its clone)' % f.lname(ev) if ok else 'a value that is NOT the appended event'), line=c.line)
         # nothing in the sidecar / live stream that is not in the log: a sibling that runs after the
         # log append runs only on its Ok edge
-        e = ok_edge_of_try(f, s)
+        e = ok_edge_of_test(f, s)
         for c in sibs:
             if not f.can_reach(s.bb, c.bb) or f.can_reach(c.bb, s.bb):
                 continue
